@@ -1,5 +1,5 @@
 """C12 - sparse kernels: concurrency-structure clauses (E5). Values (A*X = Y, Schur identities) are NOT decided."""
-import e5_locks, e17_schur
+import e5_locks, e17_schur, e31_decomp
 
 LEVEL = 'other'
 EXPLANATION = ('Guard live-range dataflow + call-graph reachability on the MIR of yui_matrix::sparse::{triang,schur,decomp}: '
@@ -27,6 +27,8 @@ def run(ctx, rep):
     summ = e5_locks.Summaries(facts)
     e5_locks.check_guards(facts, rep, summ, in_scope, 'sparse kernels', 5)
     e5_locks.check_stale_flow(facts, rep, in_scope, 'sparse kernels', 3)
+    rep.rule('E31', e31_decomp.__doc__.strip().split('\n')[0])
+    e31_decomp.run(facts, rep)
     rep.rule('E17', e17_schur.__doc__.strip().split('\n')[0])
     e17_schur.run(facts, rep)
     sites = [s for s in summ.rayon_sites if any(s[0].startswith(p) for p in ('yui_matrix::sparse::triang', 'yui_matrix::sparse::schur', 'yui_matrix::sparse::decomp'))]
